@@ -74,11 +74,12 @@ def main():
     if "--jobs" in sys.argv:
         jobs = int(sys.argv[sys.argv.index("--jobs") + 1])
     only = [a for a in sys.argv[1:] if re.match(r"C\d\d", a)]
+    rnd = 2 if "--round2" in sys.argv else 1
     items = []
     for i in range(1, 21):
         for k in (1, 2, 3):
-            sid = "C%02d_m%d" % (i, k)
-            src = "/tmp/mut_C%02d/mutants/m%d" % (i, k)
+            sid = ("C%02d_m%d" if rnd == 1 else "C%02d_r2m%d") % (i, k)
+            src = ("/tmp/mut_C%02d/mutants/m%d" if rnd == 1 else "/tmp/mut2_C%02d/mutants/m%d") % (i, k)
             kept = os.path.join(V, "seeded", sid)
             if os.path.exists(os.path.join(kept, "patch.diff")):
                 src = kept
